@@ -194,7 +194,7 @@ def _box1(res, k=0):
 
 
 def _unbox(obj):
-    if isinstance(obj, Content):
+    if isinstance(obj, (Content, Record)):
         return obj._h
     raise TypeError("content argument must be a Content subtype, not %s" % type(obj).__name__)
 
@@ -1220,11 +1220,36 @@ class RecordArray(Content):
         return _box1(self._call(b"astuple"))
 
 
-class Record(Content):
+class Record(object):
+    """A single record (scalar). As in the pybind11 bindings this is NOT a subclass of Content."""
+
     def __init__(self, array, at):
         if not isinstance(array, RecordArray):
             raise TypeError("Record requires a RecordArray")
         self._h = _make("Record", [0, int(at)], (), [_unbox(array)])
+
+    _wrap = classmethod(Content._wrap.__func__)
+    __del__ = Content.__del__
+    _call = Content._call
+    _describe = Content._describe
+    identities = Content.identities
+    parameters = Content.parameters
+    setparameters = Content.setparameters
+    setparameter = Content.setparameter
+    parameter = Content.parameter
+    purelist_parameter = Content.purelist_parameter
+    type = Content.type
+    _typestr = Content._typestr
+    kernels = Content.kernels
+    caches = Content.caches
+    tojson = Content.tojson
+    numfields = Content.numfields
+    fieldindex = Content.fieldindex
+    key = Content.key
+    haskey = Content.haskey
+    keys = Content.keys
+    validityerror = Content.validityerror
+    __getitem__ = Content.__getitem__
 
     def __repr__(self):
         return self._call(b"tostring").s[0].decode("utf-8", "surrogateescape")
